@@ -674,6 +674,7 @@ namespace
         if (!pdef->hasExactSolution()) return false;
         auto p = std::dynamic_pointer_cast<og::PathGeometric>(pdef->getSolutionPath());
         if (!p || p->getStateCount() < 2) return false;  // start inside the goal: a one-state path, see riskyCase()
+        if (p->getStateCount() > 150) return false;  // collapseCloseVertices is cubic in the number of states: keep cases bounded
         in.path = std::make_shared<og::PathGeometric>(*p);
         in.goal = gs;
         in.goalKind = 1;
@@ -918,7 +919,9 @@ namespace
     // The value of the clearance objective (minimum clearance along the curve) evaluated at a quarter of the resolution,
     // independently of how the curve is cut into segments. MaximizeMinClearanceObjective itself samples one resolution
     // length apart (and skips the first state of every motion), so its value moves by up to a resolution length when a
-    // segment is merely split; the routine's own decisions are granted 2 resolution lengths (worseThan).
+    // segment is merely split; every modification a routine accepts on its samples (one resolution length
+    // apart, 1-Lipschitz field) can lose up to half a resolution length of true clearance, so the routines are granted 3
+    // resolution lengths (six such steps) before a deterioration is a verdict; smaller ones are counted (worseThan).
     double denseMinClearance(const World &w, const og::PathGeometric &p)
     {
         double c = std::numeric_limits<double>::infinity();
@@ -956,7 +959,7 @@ namespace
         {
             // larger is better; the routine decides on samples one resolution length apart of a 1-Lipschitz field
             if (out >= in - 1e-9 * (1 + std::fabs(in))) return 0;
-            return out < in - 2.0 * w.rlp ? 2 : 1;
+            return out < in - 3.0 * w.rlp ? 2 : 1;
         }
         double tol = 1e-9 * (1 + std::fabs(in));
         if (w.kind == K_DUB) tol = 1e-5 * w.rho * (1.0 + len + (double)nseg);  // DUBINS_EPS policy of §2.4
